@@ -169,6 +169,12 @@ def term_str(t, depth=0):
         return '*' + term_str(t[1], d)
     if k == 'app':
         return '%s(%s)' % (t[1].split('::')[-1], ', '.join(term_str(x, d) for x in t[2]))
+    if k in ('checked', 'sat', 'wrap'):
+        return '%s%s(%s, %s)' % (k, t[1], term_str(t[2], d), term_str(t[3], d))
+    if k == 'tryfrom':
+        return '(%s try_as %s)' % (term_str(t[1], d), t[2])
+    if k in ('imin', 'imax'):
+        return '%s(%s, %s)' % (k[1:], term_str(t[1], d), term_str(t[2], d))
     if k == 'closure':
         return 'closure<%s>' % t[1].split('::')[-1]
     if k == 'fnitem':
@@ -443,6 +449,8 @@ class Interp:
                 return base
             if v[0] == 'proj':
                 return ('proj', v[1], v[2] + tuple(proj[n:]))
+            if v[0] == 'checked' and tuple(proj[n:n + 2]) == (('v', 'Some'), ('f', '0')):
+                return self.project(('bin', v[1], v[2], v[3], v[4]), proj[n + 2:])
             if v[0] == 'next' and tuple(proj[n:n + 2]) == (('v', 'Some'), ('f', '0')):
                 v = self.elem_of(v[1], v[2])
                 return self.project(v, proj[n + 2:])
@@ -1178,6 +1186,15 @@ class Interp:
                 and not any(f.fn['key'] == target['key'] for f in st.frames):
             return self.spec_call(st, fr, target, args, dest, t['target'], site, loopctx, work, finished, rdef or decl)
 
+        # integer TryFrom: fallible, value-preserving when it succeeds
+        if decl == 'std::convert::TryFrom::try_from' and len(args) == 1 and dest_ty.startswith('std::result::Result<') and \
+                dest_ty[len('std::result::Result<'):].split(',')[0] in self.INT_RANGE and \
+                t['args'][0].get('p', t['args'][0]).get('ty') in self.INT_RANGE:
+            tgt_ty = dest_ty[len('std::result::Result<'):].split(',')[0]
+            ret = ('tryfrom', args[0], tgt_ty)
+            st.eff.append(('call', decl, rdef, tuple(args), site, ret))
+            return self.fallible_result(st, dest, dest_ty, ret, site, rdef or decl, loopctx, work, finished, fr, t)
+
         # opaque call
         ret = ('ret', site, rdef or decl)
         st.eff.append(('call', decl, rdef, tuple(args), site, ret))
@@ -1403,6 +1420,10 @@ class Interp:
                 tgt = self.find_from_impl(t['dest']['ty'], t['args'][0].get('p', {}).get('ty'))
                 if tgt is not None and (self.inline is None or self.inline(tgt, t)):
                     return self.push_frame(st, fr, tgt, args, dest, t['target'], site)
+            a_ = t['args'][0]
+            src_ty = a_.get('p', {}).get('ty') or a_.get('ty')
+            if src_ty in self.INT_RANGE and t['dest']['ty'] in self.INT_RANGE:
+                return ('cast', a0, src_ty, t['dest']['ty'])      # lossless integer widening
             return ('from', a0)
         if decl == 'std::result::Result::<T, E>::and_then' or decl == 'std::option::Option::<T>::and_then':
             ok = 'Ok' if 'Result' in decl else 'Some'
@@ -1580,6 +1601,17 @@ class Interp:
             if idx[0] == 'agg' and idx[1].startswith('std::ops::Range'):
                 return ('ref', (base[1][0], base[1][1] + (('range', idx),)))
             return ('ref', (base[1][0], base[1][1] + (('i', idx),)))
+        m_ = re.match(r'core::num::<impl (\w+)>::(checked|saturating|wrapping)_(add|sub|mul)$', decl)
+        if m_ and len(args) == 2:
+            ty_, mode, op = m_.group(1), m_.group(2), m_.group(3).capitalize()
+            if mode == 'checked':
+                return ('checked', op, args[0], args[1], ty_)
+            if mode == 'saturating':
+                return ('sat', op, args[0], args[1], ty_)
+            return ('wrap', op, args[0], args[1], ty_)
+        if decl in ('std::cmp::Ord::min', 'std::cmp::Ord::max', 'std::cmp::min', 'std::cmp::max') and len(args) == 2 \
+                and not self.local_body(t) and t['dest']['ty'] in self.INT_RANGE:
+            return ('imin' if decl.endswith('min') else 'imax', args[0], args[1], t['dest']['ty'])
         if decl == 'core::f64::<impl f64>::max':
             return ('f64max', args[0], args[1])
         if decl == 'core::f64::<impl f64>::min':
